@@ -223,6 +223,11 @@ fn check_order(a: [u32; 4], b: [u32; 4], want_sample: bool) -> CaseResult {
     })
 }
 
+/// raw-text entry point (fuzzing)
+pub fn check_text(s: &str) -> Result<(), Failure> {
+    check_string(s, false).map(|_| ())
+}
+
 pub fn case(t: &mut Tape, ctx: &CaseCtx) -> CaseResult {
     match t.choose(4) {
         0 => {
